@@ -756,6 +756,12 @@ class Ops:
             in_init = any(f.name == "__init__" for f in self.interp.call_stack)
             if not in_init:
                 self.ev("self_write", st, attr=attr, cls=obj.cls.qualname)
+            if getattr(obj, "summary", False):
+                # a store on the summary of several instances is a weak update
+                self.ev("lost_mutation", st, attr=attr)
+                old = obj.fields.get(attr)
+                obj.fields[attr] = v if old is None else join(old, v)
+                return
             obj.fields[attr] = v
             return
         tv = tv_of(obj)
